@@ -159,10 +159,6 @@ theorem hex_escape_partial {ds : List Nat} (rest : List Nat) (h1 : 1 ≤ ds.leng
 
 /-! ## 4. Targets and prefixes -/
 
-/-- Name of the `struct type` object a model type stands for. -/
-def ctypeName : CType → String
-  | .char => "typechar" | .uchar => "typeuchar" | .ushort => "typeushort" | .int => "typeint" | .uint => "typeuint"
-
 /-- The model's target table is the one generated from `/repo/targ.c` on this run
 (`Gen/Targets.lean`: name, `.typewchar`, `.signedchar` of every `alltargs[]` entry). -/
 theorem targets_match_source :
@@ -453,9 +449,6 @@ theorem scan_accepts_wellformed (pre : Prefix) (q : Nat) (hq : q = 0x22 ∨ q = 
 
 /-! ## Non-vacuity and witnesses -/
 
-def x86 : Target := ⟨"x86_64-sysv", true, .int⟩
-def a64 : Target := ⟨"aarch64", false, .uint⟩
-def rv64 : Target := ⟨"riscv64", false, .int⟩
 example : alltargs = [x86, a64, rv64] := rfl
 
 -- utf8_roundtrip / utf16_roundtrip: every UTF-8 length, both UTF-16 lengths
@@ -496,11 +489,6 @@ example : (∀ d ∈ [0x66, 0x46, 0x66, 0x46, 0x66, 0x46, 0x66, 0x45], isHexDigi
     ¬ isHexDigit (([0x47] : List Nat).headD 0) := by decide
 -- simple_escape_correct
 example : simpleEscape 0x6E = some 10 ∧ simpleEscape 0x71 = none := by decide
-
-/-- `"a\x41€" u"\101😀\n"` (two tokens, second with prefix `u`): source characters of 1, 3 and 4
-UTF-8 bytes, a hexadecimal, an octal and a simple escape. -/
-def exParts : List Part :=
-  [(.none, [.chr 0x61, .hex [0x34, 0x31], .chr 0x20AC]), (.u, [.oct [0x31, 0x30, 0x31], .chr 0x1F600, .simple 0x6E])]
 
 -- string_model / string_values_partial / string_values_correct / string_buffer_safe
 example : exParts ≠ [] ∧ (∀ p ∈ exParts, ItemsWf 0x22 p.2) ∧ concatPrefix (exParts.map (·.1)) = .ok .u ∧
